@@ -27,6 +27,9 @@ type Cand struct {
 	Base    *RuleSet  `json:"base,omitempty"`
 	Origin  string    `json:"origin"`
 	Pkg     string    `json:"pkg,omitempty"`
+	// TgtName overrides the candidate method's short name (to collide with
+	// the short name of a method of another service).
+	TgtName string `json:"tgt_name,omitempty"`
 }
 
 type class int
@@ -66,7 +69,11 @@ func candRuleSet(c *Cand, id int) (*RuleSet, int) {
 	}
 	cs := len(rs.Services)
 	rs.Services = append(rs.Services, "Cnd")
-	tgt := MethodSpec{Svc: cs, Name: "Tgt", In: "vf.Req", Out: "vf.Rsp"}
+	tgtName := "Tgt"
+	if c.TgtName != "" {
+		tgtName = c.TgtName
+	}
+	tgt := MethodSpec{Svc: cs, Name: tgtName, In: "vf.Req", Out: "vf.Rsp"}
 	oth := MethodSpec{Svc: cs, Name: "Oth", In: "vf.Req", Out: "vf.Rsp"}
 	if c.TgtRule != nil {
 		tgt.Rules = []RuleSpec{*c.TgtRule}
@@ -409,7 +416,7 @@ func prepareCand(rs *RuleSet, perm Perm, c *Cand) (*Built, error) {
 	f, _ := rs.File(perm, nextPath())
 	svc := &f.Services[len(f.Services)-1]
 	for i := range svc.Methods {
-		if svc.Methods[i].Name == "Tgt" && svc.Methods[i].Rule != nil {
+		if i == 0 && svc.Methods[i].Rule != nil {
 			inner := httpRule(RuleSpec{Verb: "GET", Tmpl: "/nested/inner"})
 			mid := httpRule(RuleSpec{Verb: "GET", Tmpl: "/nested/mid"})
 			mid.AdditionalBindings = append(mid.AdditionalBindings, inner)
@@ -526,7 +533,12 @@ func RunC16(r *mon.Run) {
 			}
 			m := base.Methods[rng.Intn(len(base.Methods))]
 			br := m.Rules[rng.Intn(len(m.Rules))]
-			execCand(r, &Cand{Rule: RuleSpec{Verb: br.Verb, Tmpl: br.Tmpl, Via: "annotation"}, Base: base, Origin: "redeclare-base"}, rng)
+			cand := &Cand{Rule: RuleSpec{Verb: br.Verb, Tmpl: br.Tmpl, Via: "annotation"}, Base: base, Origin: "redeclare-base"}
+			if rng.Intn(2) == 0 {
+				cand.TgtName = m.Name // same short name in another service
+				cand.Origin = "redeclare-base-same-short-name"
+			}
+			execCand(r, cand, rng)
 		}
 	}
 	// own implicit path re-declared by the same method: valid
